@@ -70,6 +70,9 @@ func (ex *Exec) modifiedIn(li *loopInfo) (cells map[*ssa.Alloc]bool, heaps map[s
 			case *ssa.Alloc:
 				if isStructVal(x.Type().(*types.Pointer).Elem()) || isArrayT(x.Type().(*types.Pointer).Elem()) {
 					add("$nextref", SInt)
+					if isStructVal(x.Type().(*types.Pointer).Elem()) {
+						add("$typeof", ArrS(SInt, SInt))
+					}
 					ex.allFieldHeaps(x.Type().(*types.Pointer).Elem(), heaps)
 					if at, ok := x.Type().(*types.Pointer).Elem().Underlying().(*types.Array); ok {
 						addArr(at.Elem())
@@ -251,6 +254,10 @@ func (ex *Exec) enterLoop(li *loopInfo) {
 	}
 	preNext := ex.getHeap(ex.cur, "$nextref", SInt)
 	preSeq := ex.getHeap(ex.cur, "$seq", SInt)
+	var preTypeof *Term
+	if heaps["$typeof"] {
+		preTypeof = ex.getHeap(ex.cur, "$typeof", ArrS(SInt, SInt))
+	}
 	preTrlen := map[string]*Term{}
 	preTr := map[string]*Term{}
 	for tr := range ex.V.db.Traces {
@@ -297,6 +304,16 @@ func (ex *Exec) enterLoop(li *loopInfo) {
 	}
 	if heaps["$seq"] {
 		ex.assume(Ge(ex.getHeap(ex.cur, "$seq", SInt), preSeq))
+	}
+	if preTypeof != nil {
+		// type tags of objects that existed before the loop never change
+		r := BV("r!ty", SInt)
+		ct := ex.getHeap(ex.cur, "$typeof", ArrS(SInt, SInt))
+		ex.assume(Forall([]BVar{{"r!ty", SInt}}, Imp(Lt(r, preNext), Eq(Select(ct, r), Select(preTypeof, r)))))
+		ex.assume(Forall([]BVar{{"r!ty", SInt}}, Imp(Ge(r, ex.getHeap(ex.cur, "$nextref", SInt)), Eq(Select(ct, r), IntLit(0)))))
+		if as := ex.V.mayAllocBlocks(li.blocks); !as.unknown {
+			ex.assume(Forall([]BVar{{"r!ty", SInt}}, Imp(Ge(r, preNext), as.tagIn(Select(ct, r)))))
+		}
 	}
 	for tr, pl := range preTrlen {
 		nl := ex.getHeap(ex.cur, tr+"len", SInt)
